@@ -692,19 +692,30 @@ fn run_case(h: &str, p: &str, s: u64, ops: u64) -> Dump {
 }
 
 /// One run, panics of the code under test captured as a section of their own.
-/// The asynchronous persistence harnesses run in three chunks; with `pause_ms > 0` the driving thread really
+/// The asynchronous persistence harnesses run in chunks (cut after operations 4, 8, 13, 20, 35 and n/2); with `pause_ms > 0` the driving thread really
 /// sleeps between the chunks (what a loaded machine or a stopped process does). A simulation that is a pure
 /// function of seed and configuration cannot tell the difference; one that consults the wall clock can.
 fn paced_dump(h: &str, p: &str, s: u64, ops: u64, pause_ms: u64) -> String {
     let n = ops as usize;
-    let chunks = [n / 3, n / 3, n - 2 * (n / 3)];
+    // pauses early in the run (few segments, first compactions) and in the middle
+    let marks: Vec<usize> = [4usize, 8, 13, 20, 35, n / 2].iter().copied().filter(|m| *m < n).collect();
+    let mut chunks: Vec<usize> = vec![];
+    let mut at = 0;
+    for m in &marks {
+        if *m > at {
+            chunks.push(*m - at);
+            at = *m;
+        }
+    }
+    chunks.push(n - at);
+    let last = chunks.len() - 1;
     macro_rules! paced {
         ($H:ident, $cfg:expr) => {{
             let runtime = rt();
             let mut hh = runtime.block_on($H::new($cfg));
             for (i, c) in chunks.iter().enumerate() {
                 runtime.block_on(hh.run(*c));
-                if pause_ms > 0 && i < 2 {
+                if pause_ms > 0 && i < last {
                     std::thread::sleep(std::time::Duration::from_millis(pause_ms));
                 }
             }
@@ -866,7 +877,7 @@ fn eval_case(rep: &mut Report, c: &Case, reruns: usize, children: usize, probes_
         let (h, p, s, ops) = (c.h.clone(), c.p.clone(), c.s, c.ops);
         let pair = std::thread::Builder::new()
             .stack_size(32 << 20)
-            .spawn(move || (paced_dump(&h, &p, s, ops, 0), paced_dump(&h, &p, s, ops, 130)))
+            .spawn(move || (paced_dump(&h, &p, s, ops, 0), paced_dump(&h, &p, s, ops, 120)))
             .expect("spawn")
             .join()
             .ok();
@@ -880,7 +891,7 @@ fn eval_case(rep: &mut Report, c: &Case, reruns: usize, children: usize, probes_
                     w["relation"] = json!("paced");
                     rep.violation(
                         format!("C20|{}|result-depends-on-wall-clock-pacing", c.h),
-                        format!("preset {} seed {} ops {}: the same chunked run gives a different result when the driving thread sleeps 130 ms between chunks; first difference at byte {}: ...{} | ...{}", c.p, c.s, c.ops, at, &plain[at.saturating_sub(60)..(at + 60).min(plain.len())], &paused[at.saturating_sub(60)..(at + 60).min(paused.len())]),
+                        format!("preset {} seed {} ops {}: the same chunked run gives a different result when the driving thread sleeps 120 ms between chunks; first difference at byte {}: ...{} | ...{}", c.p, c.s, c.ops, at, &plain[at.saturating_sub(60)..(at + 60).min(plain.len())], &paused[at.saturating_sub(60)..(at + 60).min(paused.len())]),
                         w,
                     );
                 }
